@@ -263,7 +263,7 @@ def analyse(sc, r, variant, tier, stats, only_k=None):
         ks = [k for k in ks if k in keep]
     for k in ks:
         fresh(tpl, dst)
-        run_start = time.time_ns() - 2_000_000
+        run_start = time.time_ns() - 50_000_000
         rc, calls, killed, out, err = run_shim(sc, src, dst, fl, k, log)
         stats["crash_runs"] += 1
         ctag = dict(tag, k=k, at=(ref_calls[k - 1] if fl["j"] == 1 else None))
@@ -402,6 +402,41 @@ def run(tier, seed):
             for x in vv:
                 x["seed"] = seed
             viol += vv; diffs += dd
+        # with several workers the attribution of logged calls to executed prefixes is a heuristic (a thread may have logged a
+        # call it never got to execute): a difference seen there counts only if it shows up again at the same kill point
+        softv = [x for x in viol if x.get("flags", {}).get("j", 1) > 1 and "k" in x and "not being written" in x.get("why", "")]
+        if softv:
+            keepv = [x for x in viol if x not in softv]
+            for key in sorted({(x["variant"], x["k"]) for x in softv}):
+                again = 0
+                for _ in range(2):
+                    r2 = vlib.rng_for(seed, "C09-v%d" % key[0])
+                    v2, _d2 = analyse(sc, r2, key[0], "thorough", {"programs": 0, "temp_programs": 0, "crash_runs": 0, "recovery_runs": 0, "state_comparisons": 0, "replan_comparisons": 0, "boundaries": set()}, only_k=key[1])
+                    again += 1 if v2 else 0
+                if again == 2:
+                    keepv += [x for x in softv if (x["variant"], x["k"]) == key]
+            stats["rechecked_multiworker_failures"] = len(softv)
+            viol = keepv
+        soft = [d for d in diffs if d.get("flags", {}).get("j", 1) > 1 and "k" in d]
+        if soft:
+            hard = [d for d in diffs if d not in soft]
+            stats["rechecked_multiworker_differences"] = len(soft)
+            seen = set()
+            for d in soft:
+                key = (d["variant"], d["k"])
+                if key in seen:
+                    continue
+                seen.add(key)
+                again = 0
+                for _ in range(2):
+                    r2 = vlib.rng_for(seed, "C09-v%d" % d["variant"])
+                    v2, d2 = analyse(sc, r2, d["variant"], "thorough", {"programs": 0, "temp_programs": 0, "crash_runs": 0, "recovery_runs": 0, "state_comparisons": 0, "replan_comparisons": 0, "boundaries": set()}, only_k=d["k"])
+                    if d2 or v2:
+                        again += 1
+                    viol += [dict(x, seed=seed) for x in v2]
+                if again == 2:
+                    hard.append(d)
+            diffs = hard
     stats["boundaries"] = sorted("%s/%s" % b for b in stats["boundaries"])
     res.cov["evaluations"] = stats["crash_runs"] + stats["recovery_runs"]
     res.cov["distinct_nontrivial"] = stats["crash_runs"]
